@@ -51,6 +51,8 @@ def run(ck: Checker, prog: Program, tier: str):
         ck.guard(c08._r3, ck, prog)
     ck.extra["calls_resolved"] = eng.calls_resolved
     ck.extra["externals_assumed_pure"] = dict(eng.assumed_pure)
+    from .common import check_identity_comparisons as _cic
+    ck.guard(_cic, ck, prog, "C20.R1", "C20")
 
 
 def _azimuthal_drawings(ck: Checker, prog: Program):
